@@ -1,4 +1,4 @@
-import ClaripyProofs.Lemmas.Solver.SolverCalls
+import ClaripyProofs.Lemmas.Solver.SolverBatch
 /-!
 The caching class `Solver`, whole histories over a TREE of branched solvers (not tracking, `reuse_z3_solver` off): any
 sequence of add / satisfiable / eval / min / max / solution / is_true / is_false / simplify / downsize / branch on any of the
@@ -192,11 +192,77 @@ def InScopeS (R : Con → Prop) (RE : Exp → Prop) : Op → Prop
   | .add cs => ∀ c ∈ cs, R c
   | .satisfiable ex => ∀ c ∈ ex, ConWf c
   | .eval e n ex => RE e ∧ 1 ≤ n ∧ ∀ c ∈ ex, ConWf c
+  | .batchEval es n ex => (∀ e ∈ es, (e.conc = none → RE e) ∧ ∀ c, e.conc = some c → ∀ a, e.val a = c) ∧ 1 ≤ n ∧
+      ∀ c ∈ ex, ConWf c
   | .min e ex _ | .max e ex _ => RE e ∧ ∀ c ∈ ex, ConWf c
   | .solution e v ex => RE e ∧ v < 2 ^ e.bits ∧ ∀ c ∈ ex, ConWf c
   | .isTrue c ex | .isFalse c ex => ConWf c ∧ ∀ c ∈ ex, ConWf c
-  | .simplify | .downsize | .branch => True
+  | .simplify | .downsize | .branch | .pickle => True
   | _ => False
+
+/-- `__getstate__` / `__setstate__` of this class, layer by layer -/
+theorem pickleS_spec (fe : Frontend) :
+    ∃ c, pickleRestore (Claripy.Gen.SolverMro.mro .Solver) fe = c ∧
+      c.constraints = fe.constraints ∧ c.toAdd = [] ∧ c.solver = none ∧ c.track = fe.track ∧ c.hashes = fe.hashes ∧
+      c.woAnnot = fe.constraints.foldl (fun acc c => listInsert acc c.id) [] ∧ c.finalized = fe.finalized ∧
+      c.variables = fe.variables ∧ c.models = [] ∧ c.evalExh = [] ∧ c.maxExh = [] ∧ c.minExh = [] ∧ c.maxSExh = [] ∧
+      c.minSExh = [] ∧ c.cachedSat = fe.cachedSat :=
+  ⟨_, rfl, rfl, rfl, rfl, rfl, rfl, rfl, rfl, rfl, rfl, rfl, rfl, rfl, rfl, rfl, rfl⟩
+
+theorem mem_foldl_ids (cs : List Con) (acc : List Nat) (i : Nat) :
+    i ∈ cs.foldl (fun acc c => listInsert acc c.id) acc ↔ i ∈ acc ∨ ∃ c ∈ cs, c.id = i := by
+  induction cs generalizing acc with
+  | nil => simp
+  | cons c cs ih =>
+    simp only [List.foldl_cons, ih, mem_listInsert, List.mem_cons, exists_eq_or_imp]
+    constructor
+    · rintro ((h | rfl) | h)
+      · exact Or.inl h
+      · exact Or.inr (Or.inl rfl)
+      · exact Or.inr (Or.inr h)
+    · rintro (h | h | h)
+      · exact Or.inl (Or.inl h)
+      · exact Or.inl (Or.inr h.symm)
+      · exact Or.inr h
+
+/-- a pickle round trip keeps the invariant: the Z3 object is dropped, the model cache starts empty, the rest survives -/
+theorem si_pickle {G : St → Prop} {U : List Con} (hR : Reg R E) {s : St} (h : SI R RE E G U s) (c : Frontend)
+    (hcons : c.constraints = s.fe.constraints) (htoadd : c.toAdd = []) (hsol : c.solver = none)
+    (htrack : c.track = s.fe.track) (hhash : c.hashes = s.fe.hashes)
+    (hwo : c.woAnnot = s.fe.constraints.foldl (fun acc c => listInsert acc c.id) []) (hfin : c.finalized = s.fe.finalized)
+    (hvar : c.variables = s.fe.variables) (hm : c.models = []) (h1 : c.evalExh = []) (h2 : c.maxExh = [])
+    (h3 : c.minExh = []) (h4 : c.maxSExh = []) (h5 : c.minSExh = []) (hcs : c.cachedSat = s.fe.cachedSat) :
+    SI R RE E G U { s with fe := c } := by
+  refine ⟨⟨⟨?_, ?_, h.base.core.noReuse, ?_⟩, ?_, ⟨?_, ?_⟩, ?_, ?_⟩, mcInv_init RE E U c hm h1 h2 h3 h4 h5, ?_⟩
+  · intro a _; show holdsAll c.toAdd a = true; rw [htoadd]; rfl
+  · intro r hr
+    have : c.solver = some r := hr
+    rw [hsol] at this; cases this
+  · show c.track = false; rw [htrack]; exact h.base.core.untracked
+  · intro a; show holdsAll c.constraints a = _; rw [hcons]; exact h.base.equiv a
+  · intro x hx
+    have : x ∈ c.constraints := hx
+    rw [hcons] at this; exact h.base.dinv.consR x this
+  · intro x hx hi a ha
+    have hi' : x.id ∈ c.hashes ∨ x.id ∈ c.woAnnot := hi
+    rw [hhash, hwo] at hi'
+    rcases hi' with hi' | hi'
+    · exact h.base.dinv.seen x hx (Or.inl hi') a ha
+    · rcases (mem_foldl_ids _ _ _).mp hi' with hi' | ⟨x', hx', hid⟩
+      · simp at hi'
+      · rw [hR.faithful x x' hx (h.base.dinv.consR x' hx') hid.symm a]
+        have : holdsAll s.fe.constraints a = true := by rw [h.base.equiv a]; exact ha
+        exact (models_iff_holdsAll _ a).mpr this x' hx'
+  · intro x hx v hv
+    have hx' : x ∈ c.constraints := hx
+    rw [hcons] at hx'
+    show v ∈ c.variables
+    rw [hvar]; exact h.base.vars x hx' v hv
+  · obtain ⟨s0, hg, hw⟩ := h.base.ghost
+    refine ⟨s0, hg, hw.trans ⟨Nat.le_refl _, Or.inr (Or.inl hsol), fun _ _ _ => rfl, rfl, fun hf => ?_⟩⟩
+    show c.finalized = true; rw [hfin]; exact hf
+  · show SCInv U c
+    rw [SCInv, hcs]; exact h.sc
 
 /-- `Frontend.branch` of this class: `blank_copy` and `_copy` through all layers -/
 def branchS (E : Env) : M Frontend := do let fe ← M.getFe; (solStage E 4).copy ((solStage E 4).blankCopy fe {})
@@ -274,7 +340,18 @@ theorem sol_step_nb (w : World) (Us : List (List Con)) (hw : TInvS R RE E Us w) 
     cases r with
     | ok vs => exact fun hspec => ⟨Or.inl hspec.1, query hspec.2⟩
     | error err => exact fun hspec => ⟨errOk_judge (op := .eval e n extra) hspec.1 id, query hspec.2⟩
-  | batchEval es n extra => exact hop.elim
+  | batchEval es n extra =>
+    show JudgeOrGiveUp E (Us.getD i []) _ (outOf .tuples (runOn w i ((classOps E .Solver).batchEval es n extra))).1 ∧
+         TInvS R RE E Us (outOf .tuples (runOn w i ((classOps E .Solver).batchEval es n extra))).2
+    rw [classOps_solver, runOn_eq]
+    have hspec := sol_batchEval_top H 3 es (fun e he => (hop.1 e he).1) (fun e he => (hop.1 e he).2) n hop.2.1 extra hop.2.2
+      (stOfI w i) h0.mark
+    revert hspec
+    generalize (solStage E (3 + 1)).batchEval es n extra (stOfI w i) = res
+    obtain ⟨r, s'⟩ := res
+    cases r with
+    | ok ts => exact fun hspec => ⟨Or.inl hspec.1, query hspec.2⟩
+    | error err => exact fun hspec => ⟨errOk_judge (op := .batchEval es n extra) hspec.1 id, query hspec.2⟩
   | min e extra signed =>
     show JudgeOrGiveUp E (Us.getD i []) _ (outOf .int (runOn w i ((classOps E .Solver).min e extra signed))).1 ∧
          TInvS R RE E Us (outOf .int (runOn w i ((classOps E .Solver).min e extra signed))).2
@@ -350,7 +427,14 @@ theorem sol_step_nb (w : World) (Us : List (List Con)) (hw : TInvS R RE E Us w) 
     rw [hrun]
     exact ⟨Or.inl trivial, query (solDownsize_spec (stOfI w i) h0.mark).1⟩
   | branch => exact (hnb rfl).elim
-  | pickle => exact hop.elim
+  | pickle =>
+    obtain ⟨c, hc, e1, e2, e3, e4, e5, e6, e7, e8, e9, e10, e11, e12, e13, e14, e15⟩ := pickleS_spec (w.fes.getD i {})
+    have hstep : step E .Solver w i .pickle = (.unit, wOfI w i { stOfI w i with fe := c }) := by
+      show (Out.unit, { w with fes := w.fes.set i (pickleRestore (Claripy.Gen.SolverMro.mro .Solver) (w.fes.getD i {})) }) = _
+      rw [hc]; rfl
+    rw [hstep]
+    exact ⟨Or.inl trivial,
+      query (si_pickle H.reg h0.mark c e1 e2 e3 e4 e5 e6 e7 e8 e9 e10 e11 e12 e13 e14 e15)⟩
 
 omit H in
 /-- `branch` on solver `i`: a new solver with index = the number of solvers so far, inheriting the constraint list AND the
